@@ -455,3 +455,22 @@ Fixpoint wellformed (sc : string) (t : term) : bool :=
   | TNeg a => wellformed sc a && Z.eqb (weight a) 0
   end.
 
+
+(* ------------------------------------------------------------------ unary minus as read from the source *)
+(* TimeDeltaArray.__neg__: absent (ndarray.__neg__ is inherited = q_neg_keeps_jds), a body of the program language
+   (`return X.from_jds(e1, e2, fmt)` over self only), or a body outside the language *)
+Inductive neg_src : Set := NegAbsent | NegUnknown | NegBody (oc : outcome).
+Definition neg_spec_outcome : outcome := OFromJds TSelf (ENeg sj1) (ENeg sj2) (FmtOf Self).
+Definition run_unary (oc : outcome) (d : obj) : option obj :=
+  match oc with
+  | ONotImpl => None
+  | OFromJds t e1 e2 f =>
+      Some (mkObj (tkind t d d) (tscale t d d) (feval f d d) (mkJ (eval e1 (ojd d) (ojd d)) (eval e2 (ojd d) (ojd d))))
+  end.
+(* 0 = the specification, 4 = q_neg_keeps_jds, -1 = neither *)
+Definition classify_neg (n : neg_src) : Z :=
+  match n with
+  | NegAbsent => 4%Z
+  | NegUnknown => (-1)%Z
+  | NegBody oc => if outcome_eqb oc neg_spec_outcome then 0%Z else (-1)%Z
+  end.
